@@ -187,6 +187,40 @@ def contracts(c, args, ctx):
         if not (isinstance(src, tuple) and src[0] == "to_bytes"):
             raise core.NotEncodable("base64 input is not the value's to_bytes()")
         return B64(src[1])
+    # ---- vocabulary for serialisers that write the base64 text piecewise (collect_str over a Display helper, Engine::encode_slice per chunk)
+    if re.search(r"_serde::Serializer>::collect_str::<", c):
+        import fmtlib
+        f = fmtlib.Formatter(fmtlib.default_opts())
+        tyname = c[c.index("collect_str::<") + 14:-1]
+        pick_ = fmtlib.find_fmt(tyname, "Display")
+        if not pick_: raise core.NotEncodable("collect_str over " + tyname)
+        core.run_fn(pick_, [args[1], core.Ref(core.Cell(f))], ctx)
+        ser = deref(args[0])
+        if len(f.buf) == 1 and isinstance(f.buf[0], B64): ser.ev.append(("b64", f.buf[0].data))
+        else: ser.ev.append(("pieces", list(f.buf)))
+        return core.Enum("Ok", [None])
+    if re.fullmatch(r"core::slice::<impl \[u8\]>::chunks", c):
+        src = deref(args[0]); n = core.concrete_index(args[1])
+        if not (isinstance(src, tuple) and src[0] == "to_bytes"): raise core.NotEncodable("chunks of something else than the value's bytes")
+        pv = src[1]
+        total = len(pv.f[0].items) * {"U8": 1, "U16": 2, "I16": 2, "U32": 4, "I32": 4, "F32": 4, "U64": 8, "I64": 8, "F64": 8}[pv.variant]
+        parts = [("to_bytes", pv)] if total <= n else [("bytes_part", pv, lo, min(lo + n, total)) for lo in range(0, total, n)]
+        return core.SliceIter(parts)
+    if re.fullmatch(r"<(std::slice::)?Chunks<'_, u8> as IntoIterator>::into_iter", c): return args[0]
+    if re.fullmatch(r"<std::slice::Chunks<'_, u8> as Iterator>::next|<Chunks<'_, u8> as Iterator>::next", c):
+        return core.opt(deref(args[0]).next())
+    if re.search(r"as Engine>::encode_slice::<", c):
+        src = deref(args[1]); buf = deref(args[2])
+        piece = B64(src[1]) if (isinstance(src, tuple) and src[0] == "to_bytes") else B64(src)
+        buf.piece = piece
+        return core.Enum("Ok", [("b64len", piece)])
+    if re.fullmatch(r"<\[u8(; \d+)?\] as (std::ops::)?Index<(std::ops::)?RangeTo<usize>>>::index", c):
+        rng = args[1]; end = rng.f[0] if isinstance(rng, core.Struct) else rng[0]
+        if isinstance(end, tuple) and end[0] == "b64len": return end[1]
+    if re.fullmatch(r"((std|core)::str::)?from_utf8", c) and isinstance(deref(args[0]), B64):
+        return core.Enum("Ok", [deref(args[0])])
+    if re.fullmatch(r"(std::fmt::|core::fmt::)?Formatter::<'_>::write_str", c) and isinstance(deref(args[1]), B64):
+        deref(args[0]).buf.append(deref(args[1])); return core.Enum("Ok", [None])
     m = re.match(r"<(i64|u64|i32|u32|T) as ToString>::to_string", c)
     if m and (m.group(1) != "T" or (is_expr(deref(args[0])) and is_bv(deref(args[0])))):
         return Dec(deref(args[0]))
@@ -283,7 +317,7 @@ def run(rep, tier, seed, known, part):
                     rep.known_hits.append((role, known[role]))
                     rep.obligation(name, "known-finding", {"native": real})
                 else:
-                    rep.violations.append(("%s element serialises as %s: %s" % (vrname, real, what), rp))
+                    rep.violations.append(("%s element serialises as %s: %s" % (vrname, real if len(real) < 300 else real[:140] + " ... " + real[-60:], what), rp))
                     rep.obligation(name, "violated", {"input": words, "native": real})
             else:
                 rep.inconclusive.append("C24 counterexample for %s does not reproduce natively (%s)" % (vrname, real))
@@ -394,6 +428,18 @@ def run(rep, tier, seed, known, part):
         run_case("%s element: InlineBinary member holding base64(value bytes), no Value member" % vrname, vrname, core.Enum("U8", [core.VecV(bb)]), ob_oracle,
                  lambda m, vrname=vrname: ["json_elem", vrname] + [m.eval(b, model_completion=True).as_long() for b in bb],
                  lambda m, real, vrname=vrname: (real != '{"vr":"%s","InlineBinary":"%s"}' % (vrname, base64.b64encode(bytes(m.eval(b, model_completion=True).as_long() for b in bb)).decode()), "Annex F InlineBinary"))
+
+    # a value longer than 4096 bytes (base64 must be computed over the whole value, not piecewise)
+    big = [BitVec("B%d" % i, 8) for i in range(4100)]
+
+    def big_oracle(rest):
+        if not (len(rest) == 2 and rest[0][0] == "key" and bytes(rest[0][1].b) == b"InlineBinary" and rest[1][0] == "b64"):
+            return BoolVal(True)
+        pv = rest[1][1]
+        return BoolVal(not (isinstance(pv, core.Enum) and pv.variant == "U8" and pv.f[0].items == big))
+    run_case("OB element of 4100 bytes: InlineBinary member holding base64(all value bytes) in one piece", "OB", core.Enum("U8", [core.VecV(big)]), big_oracle,
+             lambda m: ["json_elem", "OB"] + [m.eval(b, model_completion=True).as_long() for b in big],
+             lambda m, real: (real != '{"vr":"OB","InlineBinary":"%s"}' % base64.b64encode(bytes(m.eval(b, model_completion=True).as_long() for b in big)).decode(), "Annex F InlineBinary (value of 4100 bytes)"))
 
     # ---------------- empty values (the Empty variant AND a value holding zero items): no Value / InlineBinary member
     for vrname, variant in (("US", "U16"), ("LO", "Strs"), ("AT", "Tags"), ("OB", "U8"), ("PN", "Strs"), ("UL", "U32")):
